@@ -153,6 +153,21 @@ impl One for R {
     open spec fn one_spec() -> R { rr(1real) }
     fn one() -> (r: R) { R { v: Ghost(1real) } }
 }
+/// stand-in for vek::ops::ColorComponent (same method signature; `full` is the opaque/maximum component value)
+pub trait ColorComponent: Zero {
+    spec fn full_spec() -> Self;
+    fn full() -> (r: Self) ensures r == Self::full_spec();
+}
+pub uninterp spec fn full_r() -> real;
+impl ColorComponent for R {
+    open spec fn full_spec() -> R { rr(full_r()) }
+    fn full() -> (r: R) { R { v: Ghost(full_r()) } }
+}
+impl FromSpecImpl<u8> for R {
+    open spec fn obeys_from_spec() -> bool { true }
+    open spec fn from_spec(v: u8) -> R { rr(v as real) }
+}
+impl From<u8> for R { fn from(v: u8) -> (r: R) { R { v: Ghost(v as real) } } }
 pub trait MulAdd<A = Self, B = Self> {
     type Output;
     spec fn mul_add_spec(self, a: A, b: B) -> Self::Output;
